@@ -30,6 +30,9 @@ package deferred
 //@   call[Storage.Has#0] assert delegate [C20]: arg1 == ctx && arg2 == key && dcw.w != nil && ref(arg0) == ref(dcw.w)
 
 //@ func (*DeferredCarWriter).Put
+//@   ghost at entry: mark(dcw) := 0
+//@   ghost after call[dynamic#*]: mark(dcw) := mark(dcw) + 1
+//@   loop[0] step each_callback_is_called_once [C20]: mark(dcw) == athead(0, mark(dcw)) + 1
 //@   modifies dcw.w, dcw.f, fx(dcw), dcw.putCb
 //@   call[DeferredCarWriter.writer#0] assert after_every_registered_callback_ran [C20]: dcw.putCb == nil || i == len(dcw.putCb)
 //@   requires unlocked [C08]: held(dcw.lk) == 0
@@ -74,6 +77,7 @@ package deferred
 // opener streams into this writer and commits under the link's own binary key.
 
 //@ func (*DeferredCarWriter).OnPut
+//@   ensures registers_the_callback_once [C20]: len(dcw.putCb) == ite(old(dcw.putCb) != nil, old(len(dcw.putCb)), 0) + 1
 //@   call[append#0] assert keeps_the_callbacks_already_registered [C20]: (old(dcw.putCb) != nil ==> len(arg0) == old(len(dcw.putCb))) && (old(dcw.putCb) == nil ==> len(arg0) == 0)
 //@   call[append#0] assert registers_the_callback_as_given [C20]: len(arg1) == 1 && arg1[0].cb == cb && arg1[0].once == once && ref(arg0) == ref(dcw.putCb)
 
